@@ -41,6 +41,22 @@ class Ctx:
         self.floors = {}          # rule -> (floor, why)
         self.assumptions = []
         self.only = None          # replay filter: (rule, construct_key)
+        self._scope = None        # predicate(rule, text) restricting which obligations are recorded
+
+    def scoped(self, pred):
+        ctx = self
+
+        class _S:
+            def __enter__(self_):
+                self_.old = ctx._scope
+                ctx._scope = pred
+
+            def __exit__(self_, *a):
+                ctx._scope = self_.old
+        return _S()
+
+    def _in_scope(self, rule, text):
+        return self._scope is None or self._scope(rule, text)
 
     # ------------------------------------------------------------------ bookkeeping
     def count(self, key, n=1):
@@ -61,10 +77,14 @@ class Ctx:
             self.samples.append(obj)
 
     def held(self, rule, instance, detail=''):
+        if not self._in_scope(rule, norm(instance)):
+            return
         self.obligations.append({'rule': rule, 'instance': norm(instance), 'status': 'held', 'detail': detail})
 
     def undecided(self, rule, instance, detail=''):
         """An obligation the analysis could not decide: never a violation (logged)."""
+        if not self._in_scope(rule, norm(instance)):
+            return
         self.obligations.append({'rule': rule, 'instance': norm(instance), 'status': 'undecided', 'detail': detail})
         self.notes.append('UNDECIDED %s %s: %s' % (rule, norm(instance), detail))
 
@@ -73,6 +93,8 @@ class Ctx:
         v = {'property': self.prop, 'rule': rule, 'file': os.path.relpath(file, self.repo) if file and os.path.isabs(file) else file,
              'function': function, 'construct_key': norm(construct), 'what_fails': what, 'line': line, 'facts': facts}
         inst = '%s:%s:%s' % (v['file'], function, v['construct_key'])
+        if not self._in_scope(rule, inst):
+            return
         for o in self.violations:
             if (o['rule'], o['file'], o['function'], o['construct_key']) == (rule, v['file'], function, v['construct_key']):
                 o.setdefault('more_sites', []).append(line)
